@@ -257,6 +257,112 @@ class Sigma(common.SpaceMixin, Obligation):
         return {'obs': {'coeff': c.tolist()}, 'violations': viol}
 
 
+
+class InterpND(common.SpaceMixin, Obligation):
+    """interpDimension with a 2-D coordinate variable (levels differ from
+    column to column): every column of a field that is linear in its own
+    coordinate is reproduced exactly at that column's target levels"""
+    mode = 'real'
+    validate_paths = 3
+    timeout_ms = 30000
+    twin_modules = ('PseudoNetCDF.core._files', 'PseudoNetCDF.coordutil')
+    objfloat = True
+    stubs = ('scipy.interpolate.interp1d (linear, extrapolate)',)
+
+    def __init__(self, same_source):
+        self.same = same_source
+        self.name = 'interpDimension-2D-coordinate[source columns %s]' % (
+            'equal' if same_source else 'different')
+        self.bounds = {'levels': 2, 'columns': 2, 'target levels': 2,
+                       'targets': 'inside the source range of their column'}
+
+    def _build(self, F, zs, ns, ab, symbolic):
+        f = F()
+        f.createDimension('z', 2)
+        f.createDimension('x', 2)
+        tc = 'O' if symbolic else 'd'
+        zc = f.createVariable('ZC', tc, ('z', 'x'))
+        v = f.createVariable('V', tc, ('z', 'x'))
+        for x in range(2):
+            for k in range(2):
+                zc[k, x] = zs[x][k]
+                v[k, x] = ab[x][0] + ab[x][1] * zs[x][k]
+        nz = f.createVariable('NZ', tc, ('z', 'x'))
+        for x in range(2):
+            for k in range(2):
+                nz[k, x] = ns[x][k]
+        return f
+
+    def _go(self, f, ns, ab, claim, symbolic):
+        nzv = f.variables['NZ']
+        out = f.interpDimension('z', nzv, coordkey='ZC')
+        got = common.getdata(out.variables['V'])
+        claim('shape', z3.BoolVal(tuple(got.shape) == (2, 2)))
+        if tuple(got.shape) != (2, 2):
+            return
+        for x in range(2):
+            for k in range(2):
+                exp = ab[x][0] + ab[x][1] * ns[x][k]
+                claim('linear-exact[level=%d,column=%d]' % (k, x),
+                      common.eq_expr(got[k, x], exp) if symbolic else
+                      common.close_expr(got[k, x], exp, 1e-9))
+
+    def _vals(self, ctx):
+        zs, ns, ab = [], [], []
+        for x in range(2):
+            if x == 1 and self.same:
+                zs.append(zs[0])
+            else:
+                z0 = ctx.real('z%d0' % x)
+                z1 = ctx.real('z%d1' % x)
+                ctx.assume(z1.e - z0.e >= 1)
+                zs.append([z0, z1])
+            n0 = ctx.real('n%d0' % x)
+            n1 = ctx.real('n%d1' % x)
+            ctx.assume(z3.And(n0.e >= zs[x][0].e, n1.e > n0.e,
+                              n1.e <= zs[x][1].e))
+            ns.append([n0, n1])
+            ab.append([ctx.real('a%d' % x), ctx.real('b%d' % x)])
+        return zs, ns, ab
+
+    def sym(self, ctx, h):
+        sp = self.space()
+        F = sp.twin('PseudoNetCDF.core._files').PseudoNetCDFFile
+        zs, ns, ab = self._vals(ctx)
+        try:
+            f = self._build(F, zs, ns, ab, True)
+            self.profiled(self._go, f, ns, ab, h.claim, True)
+        except Exception as ex:
+            h.candidate('in-domain-call-raised:' + type(ex).__name__,
+                        repr(ex)[:200])
+
+    def real(self, inputs):
+        import warnings
+        RF = common.real_files()
+        fl = lambda k, d: float(frac_of(inputs.get(k, d)))  # noqa
+        zs, ns, ab = [], [], []
+        for x in range(2):
+            if x == 1 and self.same:
+                zs.append(zs[0])
+            else:
+                zs.append([fl('z%d0' % x, 0.0), fl('z%d1' % x, 4.0)])
+            ns.append([fl('n%d0' % x, 1.0), fl('n%d1' % x, 2.0 + x)])
+            ab.append([fl('a%d' % x, 1.0), fl('b%d' % x, 2.0)])
+        viol = {}
+
+        def claim(label, e):
+            if not z3.is_true(z3.simplify(e)):
+                viol[label] = 'fails: ' + label
+        try:
+            with warnings.catch_warnings():
+                warnings.simplefilter('ignore')
+                f = self._build(RF.PseudoNetCDFFile, zs, ns, ab, False)
+                self._go(f, ns, ab, claim, False)
+        except Exception as ex:
+            viol['in-domain-call-raised:' + type(ex).__name__] = \
+                repr(ex)[:200]
+        return {'obs': {}, 'violations': viol}
+
 def obligations(tier):
     obs = []
     nos = (2, 3) if tier == 'quick' else (2, 3, 4)
@@ -274,4 +380,6 @@ def obligations(tier):
     for no, nn in ((2, 2), (2, 3), (3, 2), (3, 3)) + (
             ((3, 4), (4, 3), (4, 4)) if tier == 'thorough' else ()):
         obs.append(Sigma(no, nn))
+    for same in (True, False):
+        obs.append(InterpND(same))
     return obs
